@@ -285,7 +285,20 @@ func randValue(rng *rand.Rand, allowNul bool) string {
 		}
 	}
 	if allowNul && rng.Intn(3) == 0 && n > 2 {
-		b[1+rng.Intn(n-2)] = 0
+		i := 1 + rng.Intn(n-2)
+		b[i] = 0
+		switch rng.Intn(6) {
+		case 0: // two adjacent NULs (an empty argv element): each one is one separator
+			if i+1 < n-1 {
+				b[i+1] = 0
+			}
+		case 1: // a run of three
+			for k := i; k < i+3 && k < n-1; k++ {
+				b[k] = 0
+			}
+		case 2: // trailing NUL as well
+			b[n-1] = 0
+		}
 	}
 	// place an interesting byte at start / middle / end sometimes
 	if rng.Intn(4) == 0 {
